@@ -454,6 +454,7 @@ class IntTr:
         self.file_funcs = {}                # all functions / methods of the source file (properties read by the m4 rules)
         self.known_coq = {}                 # translated function / method name -> Gallina name (env "coqname")
         self.oracles = fenv.get("oracles", {})   # method name -> [argument types]: calls `self.m(..)` become applications of a parameter
+        self.dtype_flags = fenv.get("dtype_flags", {})   # vec parameter -> name of the extra bool parameter "is a boolean array"
 
     # -- guards: conditions under which evaluating the current statement's expressions raises ------------
     def guard(self, text):
@@ -479,6 +480,10 @@ class IntTr:
     def expr(self, e, cur):
         """cur: name -> (gallina text, current type). returns (text, type)"""
         d = ast.dump(e)
+        if "m5" in self.options:
+            r_ = self.m5_expr(e, cur)
+            if r_ is not None:
+                return r_
         if "m4" in self.options:
             r_ = self.m4_expr(e, cur)
             if r_ is not None:
@@ -1130,6 +1135,96 @@ class IntTr:
                 parts.append(f"(Some {t})")
         return f"(mkslice {parts[0]} {parts[1]} None)"
 
+    def m5_expr(self, e, cur):
+        """expression forms of the fifth batch (option "m5"); None = not one of them (the older rules apply)"""
+        if isinstance(e, ast.Compare) and len(e.ops) == 1 and isinstance(e.ops[0], (ast.Lt, ast.GtE)) \
+                and isinstance(e.left, ast.Name) and e.left.id in cur and cur[e.left.id][1] == "vec":
+            r, tr = self.expr(e.comparators[0], cur)
+            if tr != "int":
+                fail(e, "array < / >= int")
+            return f"({'np_lt_s' if isinstance(e.ops[0], ast.Lt) else 'np_ge_s'} {cur[e.left.id][0]} {r})", "bvec"
+        if isinstance(e, ast.Call):
+            f = e.func
+            kw = {k.arg: k.value for k in e.keywords}
+            nm = f.id if isinstance(f, ast.Name) else None
+            if nm == "any" and nm not in cur and len(e.args) == 1 and not kw and isinstance(e.args[0], ast.GeneratorExp):
+                # any(P(x) for x in L): P must be total on the items (a guard inside the test aborts the unit)
+                g = e.args[0]
+                if len(g.generators) != 1 or g.generators[0].ifs or g.generators[0].is_async or not isinstance(g.generators[0].target, ast.Name):
+                    fail(e, "generator form")
+                x = g.generators[0].target.id
+                l, tl_ = self.expr(g.generators[0].iter, cur)
+                if tl_ not in ("vec", "pylist") or x in cur:
+                    fail(e, "any(.. for x in L): iterable / bound-variable capture")
+                self.fresh += 1
+                xv = f"{x}_{self.fresh}"
+                c2 = dict(cur)
+                c2[x] = (xv, "int")
+                (b, tb), gs = self.scoped(lambda: self.expr(g.elt, c2))
+                if tb != "bool" or gs:
+                    fail(e, "any(.. for x in L): the test must be a total boolean")
+                return f"(existsb (fun {xv} => {b}) {l})", "bool"
+            if nm == "parse_shape" and nm not in cur and len(e.args) == 1 and not kw:
+                t, ty = self.expr(e.args[0], cur)
+                if ty not in ("vec", "pylist"):
+                    fail(e, "parse_shape")
+                return t, "pylist"       # parse_shape returns a TUPLE of ints (identity on the items)
+            if nm == "prod" and nm not in cur and len(e.args) == 1 and not kw:
+                t, ty = self.expr(e.args[0], cur)
+                if ty not in ("vec", "pylist"):
+                    fail(e, "prod")
+                return f"(zprod {t})", "int"
+            if isinstance(f, ast.Attribute) and isinstance(f.value, ast.Name) and f.value.id == "np" and "np" not in cur:
+                fn = f.attr
+                if fn == "atleast_1d" and len(e.args) == 1 and not kw:
+                    t, ty = self.expr(e.args[0], cur)
+                    if ty != "vec":
+                        fail(e, "np.atleast_1d")
+                    return t, "vec"          # an int request is the 1-vector of the model already
+                if fn == "isscalar" and len(e.args) == 1 and not kw:
+                    t, ty = self.expr(e.args[0], cur)
+                    if ty not in ("vec", "mat"):
+                        fail(e, "np.isscalar")
+                    return "false", "static_false"      # an ndarray is never a scalar: decided by the type
+                if fn == "setdiff1d" and len(e.args) == 2 and not kw:
+                    a, ta = self.expr(e.args[0], cur)
+                    b, tb = self.expr(e.args[1], cur)
+                    if ta != "vec" or tb != "vec":
+                        fail(e, "np.setdiff1d")
+                    return f"(np_setdiff1d {a} {b})", "vec"
+                if fn == "arange" and len(e.args) == 2 and set(kw) == {"dtype"} and ast.dump(kw["dtype"]) == dump("int"):
+                    a, ta = self.expr(e.args[0], cur)
+                    b, tb = self.expr(e.args[1], cur)
+                    if ta != "int" or tb != "int":
+                        fail(e, "np.arange")
+                    return f"(np_arange {a} {b})", "vec"
+                if fn == "array" and len(e.args) == 1 and isinstance(e.args[0], ast.List) and not e.args[0].elts \
+                        and (not kw or (set(kw) == {"dtype"} and ast.dump(kw["dtype"]) == dump("int"))):
+                    return "[]", "nil"
+                if fn == "array" and len(e.args) == 1 and not kw and isinstance(e.args[0], ast.Attribute) and e.args[0].attr == "shape":
+                    t, ty = self.expr(e.args[0], cur)
+                    if ty != "vec":
+                        fail(e, "np.array(X.shape)")
+                    return t, "vec"
+                if fn == "concatenate" and len(e.args) == 1 and isinstance(e.args[0], ast.Tuple) and len(e.args[0].elts) == 2 \
+                        and (not kw or (set(kw) == {"axis"} and ast.dump(kw["axis"]) == dump("1"))):
+                    a, ta = self.expr(e.args[0].elts[0], cur)
+                    b, tb = self.expr(e.args[0].elts[1], cur)
+                    if not kw and ta in ("vec", "nil", "pylist") and tb in ("vec", "nil", "pylist"):
+                        # a Python sequence operand is converted by np.array: an EMPTY one becomes a float64 array and so does
+                        # the result — outside the integer-array model: such a request is an Err of the model (every use seen
+                        # so far hands the result to a constructor as a shape, which raises for a non-integer dtype; the
+                        # correspondence stream covers the class)
+                        for x_, tx_ in ((a, ta), (b, tb)):
+                            if tx_ == "pylist":
+                                self.guard(f"(negb (zlen {x_} =? 0))")
+                        return f"({a} ++ {b})", "vec"
+                    if kw and ta == "mat" and tb == "mat":
+                        self.guard(f"(np_hstack_ok {a} {b})")
+                        return f"(np_hstack {a} {b})", "mat"
+                    fail(e, "np.concatenate")
+        return None
+
     def m4_expr(self, e, cur):
         """expression forms of the fourth batch; None = not one of them (the older rules apply)"""
         if isinstance(e, ast.Attribute):
@@ -1152,6 +1247,17 @@ class IntTr:
             if ty != "rat":
                 fail(e, "round(x) != x")
             return f"(negb (rat_is_int {t}))", "bool"
+        if isinstance(e, ast.Compare) and len(e.ops) == 1 and isinstance(e.left, ast.Attribute) and e.left.attr == "dtype":
+            # `X.dtype == bool` / `!= bool` for a parameter X that carries a dtype flag (env "dtype_flags": the Gallina function
+            # has an extra parameter `<flag> : bool` right after X = "X is a boolean array"; the Z-vector itself holds 0/1 then).
+            # The flag follows the Python NAME: func() checked that the only rebinding of X is `X = parse_one_d(X)`, which keeps
+            # the dtype (ndarray: squeeze; list: np.array).
+            op, lhs, rhs = e.ops[0], e.left.value, e.comparators[0]
+            if not (isinstance(lhs, ast.Name) and lhs.id in self.dtype_flags and lhs.id in cur and isinstance(op, (ast.Eq, ast.NotEq))
+                    and isinstance(rhs, ast.Name) and rhs.id == "bool" and "bool" not in cur):
+                fail(e, "dtype test (only `P.dtype ==/!= bool` for a parameter P with a declared dtype flag)")
+            t = self.dtype_flags[lhs.id]
+            return (t if isinstance(op, ast.Eq) else f"(negb {t})"), "bool"
         if isinstance(e, ast.Compare) and len(e.ops) == 1:
             op, lhs, rhs = e.ops[0], e.left, e.comparators[0]
             if isinstance(op, (ast.Is, ast.IsNot)) and isinstance(rhs, ast.Constant) and rhs.value is None \
@@ -2055,6 +2161,11 @@ class IntTr:
                 ptys, rtys = self.known[callee]
                 given = ([recv] if recv is not None else [])
                 argn = list(v.args)
+                if "m5" in self.options and recv is None and len(argn) < len(ptys):
+                    # trailing parameters left to their defaults: the default expressions of the callee's signature are passed
+                    missing = self.known_names.get(callee, [])[len(argn):]
+                    if len(missing) == len(ptys) - len(argn) and all(m in self.known_defaults.get(callee, {}) for m in missing):
+                        argn = argn + [self.known_defaults[callee][m] for m in missing]
                 if len(given) + len(argn) != len(ptys):
                     fail(s, "known call arity")
                 ats = list(given)
@@ -2369,6 +2480,13 @@ class IntTr:
                 f"{false_fn(cur)}\nend")
 
     def if_(self, s, rest, cur, tail, live):
+        if "m5" in self.options and isinstance(s.test, ast.Call) and ast.dump(s.test.func) == dump("np.isscalar"):
+            # a test decided by the TYPE of its argument (an ndarray is never a scalar): the dead branch is not translated,
+            # the statement is its else-branch
+            t, ty = self.expr(s.test, cur)
+            if ty != "static_false":
+                fail(s, "np.isscalar test")
+            return self.block(s.orelse + rest, cur, tail, live)
         nar = self.narrow(s.test, cur)
         multi = None if nar else self.narrow_conj(s.test, cur)
         body, orelse = s.body, s.orelse
@@ -2412,7 +2530,7 @@ class IntTr:
                 fail(s, f"variable {n} missing from the type environment")
 
         jt = {n: self.types[n] for n in av}      # type of each variable at the join
-        if any(self.types[n] in UNION_CLASSES for n in av):
+        if any(self.types[n] in UNION_CLASSES or ("m5" in self.options and self.retypes.get(n)) for n in av):
             # union-typed variables: when every branch leaves the same narrowed type, the join keeps it.  Probe pass
             # (text discarded, counters and guards restored) to learn the types the branches end with.
             seen = {n: set() for n in av}
@@ -2431,6 +2549,8 @@ class IntTr:
                     ty1 = next(iter(seen[n]))
                     if (ty1, self.types[n]) in UNION_INJ:
                         jt[n] = ty1
+                elif "m5" in self.options and len(seen[n]) == 1 and next(iter(seen[n])) in self.retypes.get(n, []):
+                    jt[n] = next(iter(seen[n]))      # every branch rebinds the variable at the same declared retype: the join keeps it
 
         def endtuple(c):
             parts = []
@@ -2474,6 +2594,19 @@ class IntTr:
                 fail(f, f"parameter {p} missing from the type environment")
             cur[p] = (p, self.types[p])
             sig.append(f"({p} : {coq_ty(self.types[p])})")
+            if p in self.dtype_flags:
+                if self.types[p] != "vec":
+                    fail(f, "dtype flag of a parameter that is not an integer vector")
+                sig.append(f"({self.dtype_flags[p]} : bool)")
+        for p in self.dtype_flags:
+            if p not in params:
+                fail(f, f"dtype flag of {p}: not a parameter")
+            keep = ast.dump(ast.parse(f"{p} = parse_one_d({p})").body[0])
+            for n in ast.walk(f):
+                if isinstance(n, ast.Name) and n.id in (p, "bool") and isinstance(n.ctx, (ast.Store, ast.Del)):
+                    par = [m for m in ast.walk(f) if isinstance(m, ast.Assign) and len(m.targets) == 1 and m.targets[0] is n]
+                    if n.id == "bool" or not par or ast.dump(par[0]) != keep:
+                        fail(n, f"rebinding of {n.id}: the dtype flag of {p} would no longer describe it")
         rty = " * ".join(coq_ty(t) for t in self.ret)
         body = strip_doc(f.body)
         for o_, otys in self.oracles.items():      # methods called on self that are not translated: parameters of the definition
@@ -2608,6 +2741,9 @@ def main():
                      ("GenSptensor4c", lambda: gen_utils(src, envp, "sptensor4c", "pyttb/sptensor.py (sptensor.logical_not; calls the generated "
                                                          "sptensor.allsubs and tt_setdiff_rows)", "Np.NpZ Np.NpZ2 Np.NpZ3 Np.NpZ3c Np.NpZ3d Np.NpZ3e "
                                                          "Np.NpZ4 Np.NpZ4b Gen.GenUtils Gen.GenKernels Gen.GenMethods2", extern=("utils", "methods2"))),
+                     ("GenSptensor4d", lambda: gen_utils(src, envp, "sptensor4d", "pyttb/sptensor.py (sptensor.reshape; calls the generated "
+                                                         "tt_sub2ind / tt_ind2sub)", "Np.NpZ Np.NpZ2 Np.NpZ3 Np.NpZ3c Np.NpZ3d Np.NpZ3e "
+                                                         "Np.NpZ4 Np.NpZ4b Np.NpZ4e Gen.GenUtils", extern=("utils",))),
                      ("GenMethods", lambda: gen_utils(src, envp, "methods", "simple methods / properties of pyttb classes "
                                                       "(`self` is a parameter: a record of the fields the method reads)",
                                                       "Np.NpZ Np.NpZ2 Np.NpZ3"))):
